@@ -61,7 +61,7 @@ Section Graph.
   (* AddToEdgeDiv (graph.go:128) *)
   Fixpoint eadd (p n : K) (w dw : Z) (res inl : bool) (l : list edge) : list edge :=
     match l with
-    | [] => [mk_edge p n w dw res inl]
+    | [] => [mk_edge p n (wadd 0 w) (wadd 0 dw) res inl]   (* = w, dw for int64 values *)
     | e :: r =>
         if keqb (e_src e) p && keqb (e_dst e) n
         then mk_edge (e_src e) (e_dst e) (wadd (e_w e) w) (wadd (e_wdiv e) dw) (e_res e || res) (e_inl e && inl) :: r
